@@ -99,24 +99,24 @@ macro_rules! video_after_key {
     };
 }
 
-//@ prop=C04 tier=quick cost=60 fns="api::Muxer::write_video,Mp4Writer::write_video_sample_with_dts,extract_vp9_config" bound="fresh VP9 muxer; any f64 pts, any key flag; valid VP9 keyframe" unwind=14 stubs="fmt::format"
+//@ prop=C04,C12 tier=quick cost=60 fns="api::Muxer::write_video,Mp4Writer::write_video_sample_with_dts,extract_vp9_config" bound="fresh VP9 muxer; any f64 pts, any key flag; valid VP9 keyframe" unwind=14 stubs="fmt::format"
 video_fresh!(c04_video_fresh_vp9_key, true, false, VideoCodec::Vp9, &VP9_KEY, true);
-//@ prop=C04 tier=quick cost=60 fns="api::Muxer::write_video,extract_vp9_config" bound="fresh VP9 muxer; any f64 pts, any key flag; frame without VP9 configuration" unwind=14 stubs="fmt::format" covers_optional="accepted"
+//@ prop=C04,C12 tier=quick cost=60 fns="api::Muxer::write_video,extract_vp9_config" bound="fresh VP9 muxer; any f64 pts, any key flag; frame without VP9 configuration" unwind=14 stubs="fmt::format" covers_optional="accepted"
 video_fresh!(c04_video_fresh_vp9_noconfig, true, false, VideoCodec::Vp9, &VP9_DELTA, false);
-//@ prop=C04 tier=quick cost=30 fns="api::Muxer::write_video" bound="fresh VP9 muxer; any f64 pts, any key flag; empty frame" unwind=14 stubs="fmt::format" covers_optional="*"
+//@ prop=C04,C12 tier=quick cost=30 fns="api::Muxer::write_video" bound="fresh VP9 muxer; any f64 pts, any key flag; empty frame" unwind=14 stubs="fmt::format" covers_optional="*"
 video_fresh!(c04_video_fresh_empty, true, false, VideoCodec::Vp9, &[], false);
-//@ prop=C04 tier=quick cost=90 fns="api::Muxer::write_video,extract_av1_config,parse_sequence_header" bound="fresh AV1 muxer; any f64 pts, any key flag; valid 7-byte AV1 keyframe" unwind=14 stubs="fmt::format"
+//@ prop=C04,C12 tier=quick cost=90 fns="api::Muxer::write_video,extract_av1_config,parse_sequence_header" bound="fresh AV1 muxer; any f64 pts, any key flag; valid 7-byte AV1 keyframe" unwind=14 stubs="fmt::format"
 video_fresh!(c04_video_fresh_av1_key, true, false, VideoCodec::Av1, &AV1_KEY, true);
-//@ prop=C04 tier=quick cost=120 fns="api::Muxer::write_video,extract_avc_config,annexb_to_avcc" bound="fresh H.264 muxer; any f64 pts, any key flag; 15-byte SPS+PPS keyframe" unwind=18 stubs="fmt::format" timeout=900
+//@ prop=C04,C12 tier=quick cost=120 fns="api::Muxer::write_video,extract_avc_config,annexb_to_avcc" bound="fresh H.264 muxer; any f64 pts, any key flag; 15-byte SPS+PPS keyframe" unwind=18 stubs="fmt::format" timeout=900
 h!(c04_video_fresh_h264_key, 18, {
     let mut m = new_muxer(VideoCodec::H264, Aud::None);
     video_step(&mut m, None, &H264_KEY, true, true, false);
     kani::cover!(true, "reached");
     core::mem::forget(m);
 });
-//@ prop=C04 tier=quick cost=90 fns="api::Muxer::write_video,Mp4Writer::write_video_sample_with_dts" bound="VP9 muxer after one keyframe at t=0; any f64 pts, any key flag; 4-byte frame" unwind=14 stubs="fmt::format"
+//@ prop=C04,C12 tier=quick cost=90 fns="api::Muxer::write_video,Mp4Writer::write_video_sample_with_dts" bound="VP9 muxer after one keyframe at t=0; any f64 pts, any key flag; 4-byte frame" unwind=14 stubs="fmt::format"
 video_after_key!(c04_video_second_t0, true, false, VideoCodec::Vp9, 0.0, &VP9_DELTA);
-//@ prop=C04 tier=quick cost=90 fns="api::Muxer::write_video,Mp4Writer::write_video_sample_with_dts" bound="VP9 muxer after one keyframe at t=1.0; any f64 pts, any key flag; 4-byte frame" unwind=14 stubs="fmt::format"
+//@ prop=C04,C12 tier=quick cost=90 fns="api::Muxer::write_video,Mp4Writer::write_video_sample_with_dts" bound="VP9 muxer after one keyframe at t=1.0; any f64 pts, any key flag; 4-byte frame" unwind=14 stubs="fmt::format"
 video_after_key!(c04_video_second_t1, true, false, VideoCodec::Vp9, 1.0, &VP9_DELTA);
 
 //@ prop=C05 tier=quick cost=60 fns="api::Muxer::write_video,Mp4Writer::write_video_sample_with_dts" bound="fresh VP9 muxer; any f64 pts, any key flag; frame without configuration (rejected first frame)" unwind=14 stubs="fmt::format" covers_optional="accepted"
@@ -193,19 +193,19 @@ macro_rules! audio_h {
         });
     };
 }
-//@ prop=C04 tier=quick cost=60 fns="api::Muxer::write_audio,Mp4Writer::write_audio_sample,is_valid_opus_packet" bound="VP9+Opus after keyframe at 1.0; any f64 pts; valid Opus packet" unwind=14 stubs="fmt::format"
+//@ prop=C04,C12 tier=quick cost=60 fns="api::Muxer::write_audio,Mp4Writer::write_audio_sample,is_valid_opus_packet" bound="VP9+Opus after keyframe at 1.0; any f64 pts; valid Opus packet" unwind=14 stubs="fmt::format"
 audio_h!(c04_audio_opus_after_video, true, false, Aud::Opus, true, false, &OPUS_PKT, true);
-//@ prop=C04 tier=quick cost=60 fns="api::Muxer::write_audio" bound="VP9+Opus, no video yet; any f64 pts" unwind=14 stubs="fmt::format" covers_optional="accepted"
+//@ prop=C04,C12 tier=quick cost=60 fns="api::Muxer::write_audio" bound="VP9+Opus, no video yet; any f64 pts" unwind=14 stubs="fmt::format" covers_optional="accepted"
 audio_h!(c04_audio_before_video, true, false, Aud::Opus, false, false, &OPUS_PKT, true);
-//@ prop=C04 tier=quick cost=60 fns="api::Muxer::write_audio" bound="VP9 without audio track; any f64 pts" unwind=14 stubs="fmt::format" covers_optional="accepted"
+//@ prop=C04,C12 tier=quick cost=60 fns="api::Muxer::write_audio" bound="VP9 without audio track; any f64 pts" unwind=14 stubs="fmt::format" covers_optional="accepted"
 audio_h!(c04_audio_not_configured, true, false, Aud::None, true, false, &OPUS_PKT, true);
-//@ prop=C04 tier=quick cost=90 fns="api::Muxer::write_audio,Mp4Writer::write_audio_sample" bound="VP9+Opus after keyframe at 1.0 and audio at 1.5; any f64 pts; valid packet" unwind=14 stubs="fmt::format"
+//@ prop=C04,C12 tier=quick cost=90 fns="api::Muxer::write_audio,Mp4Writer::write_audio_sample" bound="VP9+Opus after keyframe at 1.0 and audio at 1.5; any f64 pts; valid packet" unwind=14 stubs="fmt::format"
 audio_h!(c04_audio_opus_second, true, false, Aud::Opus, true, true, &OPUS_PKT, true);
-//@ prop=C04 tier=quick cost=90 fns="api::Muxer::write_audio,Mp4Writer::write_audio_sample,is_valid_opus_packet" bound="VP9+Opus after keyframe and one audio frame; any f64 pts; invalid Opus packet (code 3, zero frames)" unwind=14 stubs="fmt::format" covers_optional="accepted"
+//@ prop=C04,C12 tier=quick cost=90 fns="api::Muxer::write_audio,Mp4Writer::write_audio_sample,is_valid_opus_packet" bound="VP9+Opus after keyframe and one audio frame; any f64 pts; invalid Opus packet (code 3, zero frames)" unwind=14 stubs="fmt::format" covers_optional="accepted"
 audio_h!(c04_audio_opus_invalid, true, false, Aud::Opus, true, true, &[0x03, 0x00], false);
-//@ prop=C04 tier=quick cost=200 fns="api::Muxer::write_audio,Mp4Writer::write_audio_sample,adts_to_raw" bound="VP9+AAC after keyframe; any f64 pts; valid 9-byte ADTS frame" unwind=14 stubs="fmt::format,String::push" timeout=900
+//@ prop=C04,C12 tier=quick cost=200 fns="api::Muxer::write_audio,Mp4Writer::write_audio_sample,adts_to_raw" bound="VP9+AAC after keyframe; any f64 pts; valid 9-byte ADTS frame" unwind=14 stubs="fmt::format,String::push" timeout=900
 audio_h!(c04_audio_aac_valid, true, false, Aud::Aac, true, false, &ADTS_PKT, true);
-//@ prop=C04 tier=quick cost=200 fns="api::Muxer::write_audio,Mp4Writer::write_audio_sample,adts_to_raw" bound="VP9+AAC after keyframe; any f64 pts; 9 bytes without ADTS sync word" unwind=14 stubs="fmt::format,String::push" covers_optional="accepted" timeout=900
+//@ prop=C04,C12 tier=quick cost=200 fns="api::Muxer::write_audio,Mp4Writer::write_audio_sample,adts_to_raw" bound="VP9+AAC after keyframe; any f64 pts; 9 bytes without ADTS sync word" unwind=14 stubs="fmt::format,String::push" covers_optional="accepted" timeout=900
 audio_h!(c04_audio_aac_invalid, true, false, Aud::Aac, true, false, &[0u8, 1, 2, 3, 4, 5, 6, 7, 8], false);
 
 //@ prop=C05 tier=quick cost=90 fns="api::Muxer::write_audio,Mp4Writer::write_audio_sample" bound="VP9+Opus after keyframe and one audio frame; any f64 pts; invalid Opus packet" unwind=14 stubs="fmt::format" covers_optional="accepted"
@@ -231,7 +231,7 @@ h!(c05_rejected_first_video_then_audio, 14, {
 });
 
 // ---- builder ---------------------------------------------------------------------------
-//@ prop=C04 tier=quick cost=30 fns="api::MuxerBuilder::build" bound="video configured or not; any dims / f64 framerate / audio settings" unwind=6 stubs="fmt::format"
+//@ prop=C04,C12 tier=quick cost=30 fns="api::MuxerBuilder::build" bound="video configured or not; any dims / f64 framerate / audio settings" unwind=6 stubs="fmt::format"
 h!(c04_builder_build, 6, {
     let with_video: bool = kani::any();
     let b = MuxerBuilder::new(NullSink);
@@ -246,4 +246,73 @@ h!(c04_builder_build, 6, {
     kani::cover!(r.is_ok(), "built");
     kani::cover!(r.is_err(), "refused");
     core::mem::forget(r);
+});
+
+// ---- convenience calls: encode_video / encode_audio never panic (C12) ----------------------
+//@ prop=C12 tier=thorough cost=700 fns="api::Muxer::encode_video,is_keyframe,write_video,AnnexBNalIter::next" bound="fresh H.264 muxer; all 4-byte frames, any duration_ms" unwind=9 stubs="fmt::format" timeout=2400 mem=24
+h!(c12_encode_video_h264_sym4, 9, {
+    let mut m = new_muxer(VideoCodec::H264, Aud::None);
+    let d: [u8; 4] = kani::any();
+    let r = m.encode_video(&d, kani::any());
+    kani::cover!(r.is_err(), "rejected");
+    core::mem::forget((m, r));
+});
+//@ prop=C12 tier=quick cost=60 fns="api::Muxer::encode_video,is_keyframe,is_vp9_keyframe" bound="fresh VP9 muxer; all frames of 2 bytes and of 0 bytes, any duration_ms" unwind=9 stubs="fmt::format"
+h!(c12_encode_video_vp9_short, 9, {
+    let mut m = new_muxer(VideoCodec::Vp9, Aud::None);
+    let d: [u8; 2] = kani::any();
+    let r = m.encode_video(&d, kani::any());
+    let e: [u8; 0] = [];
+    let r2 = m.encode_video(&e[..], kani::any());
+    assert!(matches!(r2, Err(MuxerError::EmptyVideoFrame { .. })), "an empty frame is reported, not a panic");
+    kani::cover!(r.is_err(), "rejected");
+    core::mem::forget((m, r, r2));
+});
+//@ prop=C12 tier=quick cost=200 fns="api::Muxer::encode_video,is_keyframe,write_video" bound="fresh H.264 muxer; all 3-byte frames and the empty frame" unwind=8 stubs="fmt::format" timeout=1200 mem=20
+h!(c12_encode_video_h264_sym3, 8, {
+    let mut m = new_muxer(VideoCodec::H264, Aud::None);
+    let d: [u8; 3] = kani::any();
+    let e: [u8; 0] = [];
+    let r = m.encode_video(&d, kani::any());
+    let r2 = m.encode_video(&e[..], kani::any());
+    assert!(r2.is_err());
+    kani::cover!(r.is_err(), "rejected");
+    core::mem::forget((m, r, r2));
+});
+//@ prop=C12 tier=quick cost=200 fns="api::Muxer::encode_video,is_keyframe,write_video" bound="fresh H.265 muxer; all 3-byte frames and the empty frame" unwind=8 stubs="fmt::format" timeout=1200 mem=20
+h!(c12_encode_video_h265_sym3, 8, {
+    let mut m = new_muxer(VideoCodec::H265, Aud::None);
+    let d: [u8; 3] = kani::any();
+    let e: [u8; 0] = [];
+    let r = m.encode_video(&d, kani::any());
+    let r2 = m.encode_video(&e[..], kani::any());
+    assert!(r2.is_err());
+    kani::cover!(r.is_err(), "rejected");
+    core::mem::forget((m, r, r2));
+});
+//@ prop=C12 tier=thorough cost=600 fns="api::Muxer::encode_video,is_keyframe,write_video,extract_av1_config" bound="fresh AV1 muxer; all 3-byte frames and the empty frame" unwind=34 stubs="fmt::format" timeout=2400 mem=24
+h!(c12_encode_video_av1_sym3, 34, {
+    let mut m = new_muxer(VideoCodec::Av1, Aud::None);
+    let d: [u8; 3] = kani::any();
+    let e: [u8; 0] = [];
+    let r = m.encode_video(&d, kani::any());
+    let r2 = m.encode_video(&e[..], kani::any());
+    assert!(r2.is_err());
+    kani::cover!(r.is_err(), "rejected");
+    core::mem::forget((m, r, r2));
+});
+//@ prop=C12 tier=quick cost=90 fns="api::Muxer::encode_audio,write_audio" bound="VP9+Opus after a keyframe; all 2-byte packets, any sample count; also without audio track" unwind=9 stubs="fmt::format"
+h!(c12_encode_audio, 9, {
+    let mut m = new_muxer(VideoCodec::Vp9, Aud::Opus);
+    let r0 = m.write_video(0.0, &VP9_KEY, true);
+    assert!(r0.is_ok());
+    let d: [u8; 2] = kani::any();
+    let r = m.encode_audio(&d, kani::any());
+    let r1 = m.encode_audio(&OPUS_PKT, kani::any());
+    let mut n = new_muxer(VideoCodec::Vp9, Aud::None);
+    let r2 = n.encode_audio(&OPUS_PKT, kani::any());
+    assert!(matches!(r2, Err(MuxerError::AudioNotConfigured)));
+    kani::cover!(r.is_ok(), "accepted");
+    kani::cover!(r.is_err(), "rejected");
+    core::mem::forget((m, n, r0, r, r1, r2));
 });
